@@ -109,3 +109,15 @@ Lemma ex_track :
                [2; 3; 1]%positive
   = [(1%positive, (0, 50), (100, 50)); (2%positive, (200, 50), (300, 50))].
 Proof. vm_compute. reflexivity. Qed.
+
+(** the quadtree search of a built tree answers with one of the tree's own elements *)
+Lemma search_in_elements (polygon : positive -> list pt) (centre : positive -> pt)
+      (nbrs : positive -> list positive) (bbox : positive -> rect) fuel b es pos e :
+  search polygon nbrs bbox (build centre fuel b es) pos = Some e -> In e es.
+Proof.
+  unfold search. destruct (leaf (build centre fuel b es) pos) as [l|] eqn:El; [|discriminate].
+  intro H. apply wave_from in H. rewrite build_elements in H.
+  destruct H as [H|H]; [|exact H].
+  apply leaf_spec in El. destruct El as [S _].
+  exact (build_subtree_elements centre fuel b es l S e H).
+Qed.
